@@ -247,16 +247,22 @@ func TestWorker(t *testing.T) {
 					return nil
 				}
 				best, bestRes, steps := sc, res, 0
-				if eng.shrink != nil && !known && time.Now().Before(shrinkEnd) {
+				// minimisation is bounded per violation, and tells the driver that the worker is alive
+				vEnd := time.Now().Add(time.Duration(job.ShrinkS) * time.Second)
+				if vEnd.After(shrinkEnd) {
+					vEnd = shrinkEnd
+				}
+				if eng.shrink != nil && !known && time.Now().Before(vEnd) {
 					progress := true
-					for progress && time.Now().Before(shrinkEnd) && steps < 300 {
+					for progress && time.Now().Before(vEnd) && steps < 300 {
 						progress = false
 						for _, c := range eng.shrink(best) {
-							if time.Now().After(shrinkEnd) {
+							if time.Now().After(vEnd) {
 								break
 							}
 							r2 := eng.run(t, c, nil)
 							steps++
+							emit(map[string]any{"heartbeat": "minimising", "of_seed": seed, "step": steps})
 							if r2.HarnessErr == "" && same(r2) != nil {
 								best, bestRes, progress = c, r2, true
 								break
